@@ -108,9 +108,17 @@ class PathDomain(Domain):
                     # facts about the value the name had so far stay true of that value: they are kept under the name `<name>__was`
                     facts = frozenset(self._age(f, t.id) if self._mentions(f[2], t.id) else f for f in facts)
                 elif isinstance(t, (ast.Tuple, ast.List)):
-                    for x in ast.walk(t):
-                        if isinstance(x, ast.Name):
-                            d[x.id] = None
+                    if isinstance(stmt.value, (ast.Tuple, ast.List)) and len(stmt.value.elts) == len(t.elts) \
+                            and all(isinstance(x, ast.Name) for x in t.elts) and not any(isinstance(x, ast.Starred) for x in stmt.value.elts):
+                        # a, b = x, y: element-wise, all right-hand sides read before any name is bound
+                        vals = [self._canon(v_, env) for v_ in stmt.value.elts]
+                        for x, v_ in zip(t.elts, vals):
+                            d[x.id] = v_
+                            facts = frozenset(self._age(f, x.id) if self._mentions(f[2], x.id) else f for f in facts)
+                    else:
+                        for x in ast.walk(t):
+                            if isinstance(x, ast.Name):
+                                d[x.id] = None
                 else:
                     events = events + (('store', norm_text(self._canon(t, env)), stmt.lineno, val),)
         elif isinstance(stmt, ast.AugAssign):
